@@ -41,6 +41,7 @@ RULE = (
     "iteration and (through a real file) save/load. distinct = (solver, dt, number of steps, t1 kind, fault kind, "
     "scene kind); non-trivial = solution returned with >= 2 instants"
 )
+RULE += " Rattle / BackwardEuler runs may contain a Cosserat rod (field widths nla_c / nla_g of the rod; save / load of a system whose rod class is created by the factory at run time)."
 COMPONENTS = {
     "real": ["all eight solvers", "Solution / SolutionIterator / save_solution / load_solution (dill, real files in a private temp dir)"],
     "stub": ["tqdm -> SimProgress", "solve_ivp / solve_dae wrapped only when a back-end stop fault is scheduled (real integrator runs up to the fault time)"],
